@@ -10,7 +10,7 @@ import TrompModel.Gen.Cxx.RingUnlink
 namespace Tromp.Cxx
 
 /-- `list_elem<T>::~list_elem` — translated from include/trompeloeil/mock.hpp:1365 -/
-def ring_elem_dtor (this : Ring.Ptr) (h0 : Ring.Heap) : Ring.Heap := Id.run do
+def ring_elem_dtor (this : Ring.Ptr) (h0 : Ring.Heap Ring.Ptr) : Ring.Heap Ring.Ptr := Id.run do
   let mut h := h0
   h := ring_unlink this h
   return h
